@@ -44,9 +44,10 @@ def cacheTable : CacheTable := {
     { name := "running_average", writes := [⟨"_values", .copy⟩, ⟨"_values", .inplace⟩],
       npts := .lengthPreserved, clears := allGuards },
     -- remove_rolling_average(mtype="velocity"): reads self.velocity; `_values = acc` with
-    -- acc = insert(diff(velocity)/dt, 0, ·) (a fresh array of the same length); clear_cache()
+    -- acc = insert(diff(velocity)/dt, 0, ·) (a fresh array with the length of self.velocity; `_npts` is not
+    -- assigned); clear_cache()
     { name := "remove_rolling_average/velocity", reads := ["velocity"], writes := [⟨"_values", .copy⟩],
-      npts := .lengthPreserved, clears := allGuards },
+      npts := .lengthOf "velocity", clears := allGuards },
     -- remove_rolling_average(mtype=other): `self._values -= roll`; clear_cache()
     { name := "remove_rolling_average/other", writes := [⟨"_values", .inplace⟩],
       npts := .lengthPreserved, clears := allGuards },
